@@ -484,6 +484,7 @@ pub fn worker(seed: u64, start: u64, end: u64, progress: &mut dyn FnMut(u64), ke
         }
         if let Some(v) = v {
             if sum.violations.len() < 3 {
+                progress(run | MINIMISING);
                 let (min, execs) = minimise(&plan, &v);
                 let v2 = execute(&min).0.unwrap_or(v.clone());
                 let path = replay_path("C17", seed, run, "");
